@@ -151,6 +151,7 @@ func concatParts(v ssa.Value) []ssa.Value {
 }
 
 func runC12(c *Ctx, r *Report) {
+	defer round8(c, r, "C12")
 	defer c12r6(c, r)
 	defer c12r7(c, r)
 	defer c12r8(c, r)
